@@ -47,6 +47,9 @@ impl FillElem for GenericArray<Slot, U3> {
     fn fields(&self, o: &mut Vec<u64>) { for x in self { x.fields(o) } }
 }
 
+#[repr(C)]
+struct Guarded<A> { pre: [u64; 4], array: A, post: [u8; 32] }
+
 const MODULUS: u128 = 18446744073709551557;
 fn describe<T: FillElem>(s: &[T]) -> String {
     let mut all = Vec::new();
@@ -77,10 +80,20 @@ fn go<T: FillElem, N: ArrayLength>(kv: &KV) -> String where GenericArray<T, N>: 
     let body = match get(kv, "op") {
         "zeroize" => {
             let seed = get_usize(kv, "seed").unwrap_or(0) as u64;
-            let mut a: GenericArray<T, N> = GenericArray::generate(|i| T::make(seed, i as u64));
-            let mut want: Vec<T> = a.iter().cloned().collect();
+            // the array sits between two canaries on the heap: wiping it must not touch a byte outside it (C01, C19)
+            let mut g: Box<Guarded<GenericArray<T, N>>> = Box::new(Guarded {
+                pre: [0xA5A5_A5A5_A5A5_A5A5; 4],
+                array: GenericArray::generate(|i| T::make(seed, i as u64)),
+                post: [0x5A; 32],
+            });
+            let mut want: Vec<T> = g.array.iter().cloned().collect();
             for x in want.iter_mut() { x.zeroize(); }
-            a.zeroize();
+            let base = &g.array as *const _ as usize;
+            if g.post.as_ptr() as usize - base != core::mem::size_of::<T>() * N::USIZE { f.push("array-not-N-times-size".to_string()); }
+            std::hint::black_box(&mut *g).array.zeroize();
+            let g = std::hint::black_box(g);
+            if g.pre != [0xA5A5_A5A5_A5A5_A5A5; 4] || g.post != [0x5A; 32] { f.push(format!("wrote-outside-array-of-{}-bytes", core::mem::size_of::<T>() * N::USIZE)); }
+            let a = &g.array;
             let bad: Vec<usize> = (0..N::USIZE).filter(|i| a[*i] != want[*i]).collect();
             if !bad.is_empty() { f.push(format!("not-zeroized:{}-of-{}-first-{}", bad.len(), N::USIZE, bad[0])); }
             describe(a.as_slice())
